@@ -55,6 +55,7 @@ type c20Case struct {
 	Wcap    int
 	Rcap    int
 	Eintr   int
+	Errno0  int // errno on entry (0: untouched); models what an unrelated earlier system call of the host left behind
 	WDelay  int // ms to sleep before the first socket write (the process being descheduled)
 	Timeout int // seconds, as configured (default 3)
 	Timing  bool
@@ -148,11 +149,38 @@ func c20Cases(rng *rand.Rand, encoderOnly bool) []c20Case {
 	for _, e := range []int{1, 2, 4, 3, 7} {
 		add("eintr", c20Case{User: []byte("alice"), Pw: []byte("secret"), Script: okReply, Eintr: e})
 	}
+	// a signal interrupts the first wait, or errno still says EINTR from an unrelated earlier call of the host application,
+	// and the server then answers short, not at all, or normally
+	for _, e := range []int{1, 4, 0} {
+		for _, en := range []int{0, 4} { // 4 = EINTR
+			if e == 0 && en == 0 {
+				continue
+			}
+			cl := "eintr-then-short-reply"
+			if en != 0 {
+				cl = "stale-errno"
+			}
+			for _, cut := range []int{0, 1, 2, 3, 10} {
+				add(cl, c20Case{User: []byte("alice"), Pw: []byte("secret"), Eintr: e, Errno0: en, Script: c20Script{Name: fmt.Sprintf("cut%d-close", cut), Reply: okReply.Reply[:cut]}})
+			}
+			add(cl, c20Case{User: []byte("alice"), Pw: []byte("secret"), Eintr: e, Errno0: en, Script: okReply})
+			add(cl, c20Case{User: []byte("alice"), Pw: []byte("secret"), Eintr: e, Errno0: en, Script: noReply})
+			add(cl, c20Case{User: []byte("alice"), Pw: []byte("secret"), Eintr: e, Errno0: en, Script: c20Script{Name: "payload:\"\"", Reply: c20Part(nil, -1)}})
+		}
+	}
 	// A: reply grammar
 	payloads := []string{"OK", "NO", "O", "", "OKAY", "ok", "Ok", "oK", "OK successfully authenticated", "NO wrong credentials", "OK\x00", "\x00OK", "KO", " OK", "NOOK", "OK ", "N", "NOK", "0K", "OK\n", "YES", "TRUE", "1", "OKO", "O\x00K"}
 	for _, p := range payloads {
 		add("reply-grammar", c20Case{User: []byte("alice"), Pw: []byte("secret"), Script: c20Script{Name: "payload:" + vr.Q(p), Reply: c20Part([]byte(p), -1)}})
 		add("reply-grammar", c20Case{User: []byte("alice"), Pw: []byte("secret"), Opts: []string{"debug", "try_first_pass"}, Script: c20Script{Name: "payload:" + vr.Q(p), Reply: c20Part([]byte(p), -1)}})
+	}
+	// state left over from the previous authentication of the same process: a positive reply directly followed by
+	// replies too short to say anything
+	for rep := 0; rep < 2; rep++ {
+		for _, p := range []string{"", "O", "N", "\x00"} {
+			add("after-ok", c20Case{User: []byte("alice"), Pw: []byte("secret"), Script: okReply})
+			add("after-ok", c20Case{User: []byte("alice"), Pw: []byte("secret"), Script: c20Script{Name: "payload-after-ok:" + vr.Q(p), Reply: c20Part([]byte(p), -1)}})
+		}
 	}
 	for _, l := range []int{3, 255, 256, 257, 258, 300, 1024, 65535} {
 		for _, pre := range []string{"OK", "NO", "XX"} {
@@ -298,7 +326,7 @@ func c20(encoderOnly bool) {
 	if encoderOnly {
 		prop, stage, pfx = "C13", "pam-encoder", "c13:pam"
 	}
-	R := vr.New(prop, stage, "pam_whawty.c compiled unmodified with clang ASan+UBSan against stub PAM headers, driven by a scripted unix-socket server: users/passwords of length 0..4096 (binary), all 16 combinations of {debug,try_first_pass,use_first_pass,not_set_pass} x 6 password sources, invalid option values, every reply from a grammar (OK/NO/O/OKAY/ok/NUL..., lengths 0..65535, announced length != sent), a reply cut at every byte (then close / then silence), 1-byte dribble, early close, no listener, replies on both sides of the timeout, short writes/reads and EINTR injected through syscall wrappers. Oracle: the return code is PAM_SUCCESS exactly when the bytes the module can have read as the reply begin with OK; the bytes the server received equal the saslauthd encoding of (user[:256], password[:256], '', ''); every socket read/write is preceded by a select with a finite timeout that reported readiness and the number of selects is bounded by the bytes transferred. Non-trivial: every case other than a plain OK reply to a short user/password; distinct by (user, password, options, script, caps)")
+	R := vr.New(prop, stage, "pam_whawty.c compiled unmodified with clang ASan+UBSan against stub PAM headers, driven by a scripted unix-socket server: users/passwords of length 0..4096 (binary), all 16 combinations of {debug,try_first_pass,use_first_pass,not_set_pass} x 6 password sources, invalid option values, every reply from a grammar (OK/NO/O/OKAY/ok/NUL..., lengths 0..65535, announced length != sent), positive replies directly followed in the same process by replies of 0-1 bytes, a reply cut at every byte (then close / then silence), 1-byte dribble, early close, no listener, replies on both sides of the timeout, short writes/reads and EINTR injected through syscall wrappers, EINTR or a stale errno==EINTR on entry combined with cut / empty / normal replies (a spin guard stops a case after 200000 select calls). Oracle: the return code is PAM_SUCCESS exactly when the bytes the module can have read as the reply begin with OK; the bytes the server received equal the saslauthd encoding of (user[:256], password[:256], '', ''); every socket read/write is preceded by a select with a finite timeout that reported readiness and the number of selects is bounded by the bytes transferred. Non-trivial: every case other than a plain OK reply to a short user/password; distinct by (user, password, options, script, caps)")
 	defer R.Write()
 	rng := R.Rand("c20")
 	pamh := filepath.Join(os.Getenv("VERIF_BIN"), "pamh")
@@ -380,6 +408,8 @@ func c20(encoderOnly bool) {
 		batches = append(batches, cur)
 	}
 	results := map[string]*c20Out{}
+	vgMsg := map[string]string{}
+	spun := map[string]string{}
 	died := map[string]string{}
 	diedCode := map[string]int{}
 	var rmu sync.Mutex
@@ -394,12 +424,12 @@ func c20(encoderOnly bool) {
 			if c.User != nil {
 				u = hex.EncodeToString(c.User)
 			}
-			fmt.Fprintf(&sb, "%s\t%s\t%s\t%s\t%s\t%s\t%d\t%d\t%d\t%d\n", c.ID, u, hex.EncodeToString(c.Pw), c.PwSrc, strings.Join(c.Opts, ","), sockOf[c.ID], c.Wcap, c.Rcap, c.Eintr, c.WDelay)
+			fmt.Fprintf(&sb, "%s\t%s\t%s\t%s\t%s\t%s\t%d\t%d\t%d\t%d\t%d\n", c.ID, u, hex.EncodeToString(c.Pw), c.PwSrc, strings.Join(c.Opts, ","), sockOf[c.ID], c.Wcap, c.Rcap, c.Eintr, c.WDelay, map[bool]int{true: c.Errno0, false: -1}[c.Errno0 > 0])
 		}
 		os.WriteFile(f, []byte(sb.String()), 0600) //nolint:errcheck
 		cmd := exec.Command("timeout", "-s", "KILL", "120", pamh, f)
 		if valgrind {
-			cmd = exec.Command("timeout", "-s", "KILL", "900", "valgrind", "-q", "--error-exitcode=97", "--leak-check=full", "--errors-for-leak-kinds=definite,indirect", "--track-origins=yes", pamh, f)
+			cmd = exec.Command("timeout", "-s", "KILL", "900", "valgrind", "-q", "--log-fd=1", "--error-exitcode=97", "--leak-check=full", "--errors-for-leak-kinds=definite,indirect", "--track-origins=yes", pamh, f)
 		}
 		cmd.Env = append(os.Environ(), "ASAN_OPTIONS=abort_on_error=0:detect_leaks=1:exitcode=99", "UBSAN_OPTIONS=print_stacktrace=1:halt_on_error=1:exitcode=98")
 		var stderr bytes.Buffer
@@ -409,8 +439,23 @@ func c20(encoderOnly bool) {
 		last := ""
 		finished := map[string]bool{}
 		sc := bufio.NewScanner(bytes.NewReader(stdout))
+		sc.Buffer(make([]byte, 1<<20), 1<<24)
 		for sc.Scan() {
+			if valgrind && strings.HasPrefix(sc.Text(), "==") {
+				// memcheck reports go to the same stream as the BEGIN/END lines, so they are attributed to the running case
+				who := last
+				if who == "" {
+					who = "at-exit:" + name
+				}
+				if len(vgMsg[who]) < 6000 {
+					vgMsg[who] += sc.Text() + "\n"
+				}
+				continue
+			}
 			f := strings.Split(sc.Text(), "\t")
+			if f[0] == "SPIN" && len(f) >= 3 {
+				spun[f[1]] = f[2]
+			}
 			if f[0] == "BEGIN" {
 				last = f[1]
 				results[last] = &c20Out{}
@@ -469,12 +514,20 @@ func c20(encoderOnly bool) {
 	wg.Wait()
 	time.Sleep(100 * time.Millisecond)
 	// judge
+	for who, msg := range vgMsg {
+		if strings.HasPrefix(who, "at-exit:") {
+			R.Violate(pfx+":memcheck:at-exit:"+c20VgKind(msg), "valgrind memcheck reported at process exit: "+c20VgKind(msg), who, msg)
+		}
+	}
 	for _, c := range cases {
+		if msg := vgMsg[c.ID]; msg != "" {
+			R.Violate(pfx+":memcheck:"+c20VgKind(msg)+":"+c.Class, "valgrind memcheck reported while this case ran: "+c20VgKind(msg), c.ID, map[string]any{"class": c.Class, "server_script": c.Script.Name, "reply": vr.Hex(c.Script.Reply), "options": c.Opts, "memcheck": msg})
+		}
 		o := results[c.ID]
 		omu.Lock()
 		so := *obs[c.ID]
 		omu.Unlock()
-		key := fmt.Sprintf("%x|%x|%s|%v|%s|%x|%v|%d|%d|%d", c.User, c.Pw, c.PwSrc, c.Opts, c.Script.Name, c.Script.Reply, c.Script.Chunks, c.Wcap, c.Rcap, c.Eintr)
+		key := fmt.Sprintf("%x|%x|%s|%v|%s|%x|%v|%d|%d|%d", c.User, c.Pw, c.PwSrc, c.Opts, c.Script.Name, c.Script.Reply, c.Script.Chunks, c.Wcap, c.Rcap, c.Eintr*100+c.Errno0)
 		R.Case(key, !(c.Class == "lengths" && len(c.User) < 10 && len(c.Pw) < 10))
 		R.Count("class:"+c.Class, 1)
 		wit := map[string]any{"class": c.Class, "user_len": len(c.User), "password_len": len(c.Pw), "password_source": c.PwSrc, "options": c.Opts, "server_script": c.Script.Name, "reply": vr.Hex(c.Script.Reply), "wcap": c.Wcap, "rcap": c.Rcap, "eintr": c.Eintr, "server_received": vr.Hex(so.Request)}
@@ -485,6 +538,9 @@ func c20(encoderOnly bool) {
 				sig = pfx + ":asan:" + c20AsanKind(msg)
 			case strings.Contains(msg, "runtime error"):
 				sig = pfx + ":ubsan"
+			case spun[c.ID] != "":
+				sig = pfx + ":busy-loop"
+				msg = "the module made more than " + spun[c.ID] + " select calls in this one authentication (no case transfers more than 70000 bytes): it spins instead of returning; harness stopped the process"
 			case diedCode[c.ID] == 97:
 				sig = pfx + ":memcheck"
 			case diedCode[c.ID] == 137 || diedCode[c.ID] == -int(syscall.SIGKILL):
@@ -693,4 +749,32 @@ func c20ReadRequest(conn net.Conn, n int) []byte {
 		}
 	}
 	return out
+}
+
+// c20VgKind: the first report line of a memcheck message, as a slug.
+func c20VgKind(msg string) string {
+	for _, l := range strings.Split(msg, "\n") {
+		if i := strings.Index(l, "== "); i >= 0 {
+			t := strings.TrimSpace(l[i+3:])
+			if t == "" {
+				continue
+			}
+			t = strings.ToLower(t)
+			var sb strings.Builder
+			for _, r := range t {
+				switch {
+				case r >= 'a' && r <= 'z':
+					sb.WriteRune(r)
+				case r == ' ' || r == '-':
+					sb.WriteByte('-')
+				}
+			}
+			s := sb.String()
+			if len(s) > 60 {
+				s = s[:60]
+			}
+			return s
+		}
+	}
+	return "report"
 }
